@@ -256,6 +256,17 @@ CHECKS = {
          'argument-count mismatches and ill-typed arguments must raise, and format/3 must not have written anything.',
     note='~w/~q leaves use the machine\'s own write_term_to_chars text of the same argument (the printer is checked by C15/C55). '
          'Column stops before the current column, ~a with numbers, ~f with integers and ~0n are undocumented and not generated.'),
+ 'C19': dict(
+    level='exploration',
+    technique='runtime monitoring: history monitor with a shadow stream model (bytes, cursor, newlines consumed, end state, eof_action, type, reposition) stepped in lock-step with the real stream',
+    text='Payloads are written to a file by random put_char/put_code/put_byte/write/nl/format sequences (write and append mode, text '
+         'and binary) and compared byte for byte with what is on disk; the file is re-opened with random type/eof_action/reposition '
+         'options and driven by 8-40 operations (get_/peek_ char, code and byte, get_n_chars, at_end_of_stream, read_term, saving and '
+         'restoring positions, operations of the wrong stream type); after every operation the returned item, the byte position, the '
+         'line count and end_of_stream are compared with the shadow stream, including reads at and past the end under every eof_action.',
+    note='eof_action(reset) accepts both readings (end-of-file again, or restart at the beginning as implemented); whether read_term/3 '
+         'consumes the layout character after the end token is left open; only file streams are driven (the library offers no '
+         'in-memory stream constructor at the Prolog level).'),
 }
 
 NOT_APPLICABLE_REASON_UNBUILT = ('check designed in DESIGN.md but not built/validated yet in this session; '
